@@ -34,6 +34,16 @@ tagCategoryExplicit = 0x02
 tagCategoryUntagged = 0x04
 
 
+def _show(number):
+    # a tag number as text: in hexadecimal if it is longer than the
+    # interpreter converts to decimal digits (sys.set_int_max_str_digits)
+    try:
+        return str(number)
+
+    except ValueError:
+        return hex(number)
+
+
 class Tag(object):
     """Create ASN.1 tag
 
@@ -65,7 +75,7 @@ class Tag(object):
 
     def __repr__(self):
         representation = '[%s:%s:%s]' % (
-            self.__tagClass, self.__tagFormat, self.__tagId)
+            self.__tagClass, self.__tagFormat, _show(self.__tagId))
         return '<%s object, tag %s>' % (
             self.__class__.__name__, representation)
 
@@ -194,7 +204,7 @@ class TagSet(object):
         self.__hash = hash(self.__superTagsClassId)
 
     def __repr__(self):
-        representation = '-'.join(['%s:%s:%s' % (x.tagClass, x.tagFormat, x.tagId)
+        representation = '-'.join(['%s:%s:%s' % (x.tagClass, x.tagFormat, _show(x.tagId))
                                    for x in self.__superTags])
         if representation:
             representation = 'tags ' + representation
